@@ -623,7 +623,13 @@ Definition meth_hf (a : snap) : list msg :=
 Definition wf_snapb (a : snap) : bool :=
   nodupz (reg_keys a)
   && forallb (fun c => is_complex c || builtinb (c_ns c, c_tn c)) (a_classes a)
-  && forallb (fun c => match c_base c with Some b => memz b (reg_keys a) | None => true end) (a_classes a)
+  && forallb (fun c => match c_base c with
+                       | Some b => match find_cls (a_classes a) b with
+                                   | Some bc => type_regb a (c_ns bc, c_tn bc)
+                                   | None => true       (* the build raises KeyError *)
+                                   end
+                       | None => true
+                       end) (a_classes a)
   && forallb (fun x => type_regb a (m_tns x, m_tn x)
                        && (text_eqb (m_ens x) (a_tns a) || elem_regb a (m_ens x, m_ename x))) (meth_io a)
   && forallb (fun x => elem_regb a (m_ens x, m_ename x)) (meth_hf a).
